@@ -84,6 +84,15 @@ func main() {
 		var rf core.ReplayFile
 		json.Unmarshal(b, &rf)
 		prof := map[string]string{"C05": "containment", "C03": "closure", "C11": "cancel"}[rf.Property]
+		if rf.Property == "C06" {
+			if len(rf.Aux) > 0 && rf.Aux[0] < 0 {
+				faultsweep.Debug("coroutine", rf.Tape[1:])
+				faultsweep.DebugFault("coroutine", rf.Tape[1:], rf.Aux[1:])
+			} else {
+				cosched.DebugA(rf.Tape, rf.Aux)
+			}
+			return
+		}
 		if rf.Property == "C11" {
 			faultsweep.Debug(prof, rf.Tape[2:])
 			return
